@@ -228,7 +228,7 @@ pub static C13: SimpleProp = SimpleProp {
     id: "C13",
     level: "exploration",
     rule: "(LZMA inputs include marker-terminated streams decoded with the true size in effect as well) one evaluation = one pair of decodes of the same bytes (valid stream of each format, or bit-flipped / truncated / extended / spliced) — once from a slice exposing everything, once through scripted refills (1 byte, fixed k, random patterns) or a real std BufReader of capacity 1..64 over short reads; verdict kind must match, and on success bytes and consumed count; non-trivial = the fragmented reader needed more than one refill; distinct by (scenario, event log) hash",
-    runs_quick: 60_000,
+    runs_quick: 120_000,
     runs_thorough: 24_000_000,
     both_profiles: false,
     assumptions: &[
